@@ -45,7 +45,7 @@ MANIFEST = dict(
 
 GENERAL = ["C13_unique", "C13_not_both", "C13_parse_exact", "C13_parse_ident",
            "C13_readback_prefixed", "C13_readback_plain"]
-INSTANCE = ["C13_table_wf", "C13_render_wf", "C13_factor", "C13_prelude_reachable", "C13_prelude_printable",
+INSTANCE = ["C13_table_wf", "C13_table_standard", "C13_render_wf", "C13_factor", "C13_prelude_reachable", "C13_prelude_printable",
             "C13_prelude_unique", "C13_prelude_parse_exact"]
 THEOREMS = GENERAL + INSTANCE
 
@@ -177,6 +177,45 @@ def combos(rows, units):
     return accepted, rejected
 
 
+# the SI / IEC 80000-13 prefixes (same hand-written specification as Prefix/Standard.v)
+STANDARD = {"quecto": -30, "ronto": -27, "yocto": -24, "zepto": -21, "atto": -18, "femto": -15, "pico": -12,
+            "nano": -9, "micro": -6, "milli": -3, "centi": -2, "deci": -1, "deca": 1, "hecto": 2, "kilo": 3,
+            "mega": 6, "giga": 9, "tera": 12, "peta": 15, "exa": 18, "zetta": 21, "yotta": 24, "ronna": 27,
+            "quetta": 30, "kibi": 10, "mebi": 20, "gibi": 30, "tebi": 40, "pebi": 50, "exbi": 60, "zebi": 70,
+            "yobi": 80, "robi": 90, "quebi": 100}
+STANDARD_SYM = {"q": "quecto", "r": "ronto", "y": "yocto", "z": "zepto", "a": "atto", "f": "femto", "p": "pico",
+                "n": "nano", "µ": "micro", "μ": "micro", "u": "micro", "m": "milli", "c": "centi", "d": "deci",
+                "da": "deca", "h": "hecto", "k": "kilo", "M": "mega", "G": "giga", "T": "tera", "P": "peta",
+                "E": "exa", "Z": "zetta", "Y": "yotta", "R": "ronna", "Q": "quetta", "Ki": "kibi", "Mi": "mebi",
+                "Gi": "gibi", "Ti": "tebi", "Pi": "pebi", "Ei": "exbi", "Zi": "zebi", "Yi": "yobi", "Ri": "robi",
+                "Qi": "quebi"}
+
+
+def standard_failures(binary, rows, units):
+    """prefix spellings whose value differs from the SI / IEC meaning, shown on a real unit"""
+    out = []
+    for r in rows:
+        base = 10 if r["metric"] else 2
+        for sp, form in [(r["long"], "long")] + [(s, "short") for s in r["shorts"]]:
+            std_name = sp if form == "long" else STANDARD_SYM.get(sp)
+            want = STANDARD.get(std_name)
+            is_bin = std_name in ("kibi", "mebi", "gibi", "tebi", "pebi", "exbi", "zebi", "yobi", "robi", "quebi")
+            if want is not None and want == r["exp"] and is_bin == (not r["metric"]):
+                continue
+            u = next((u for u in units if (u["metric"] if r["metric"] else u["binary"]) and
+                      (u["along"] if form == "long" else u["ashort"]) and u["name"].isidentifier()), None)
+            ident = sp + (u["name"] if u else "")
+            src = "(1 %s) / (1 %s)" % (ident, u["name"]) if u else ident
+            o = common.run_harness(binary, "prefix", ["D " + src.encode().hex()], shards=1)[0]
+            shown = bytes.fromhex(o[3:]).decode() if o.startswith("ok ") else o
+            out.append({"kind": "prefix spelling does not denote its SI / IEC 80000-13 factor",
+                        "spelling": sp, "identifier": ident,
+                        "implementation_prefix": "%s^%d" % (base, r["exp"]),
+                        "standard": "unknown spelling" if want is None else "%s^%d" % (2 if is_bin else 10, want),
+                        "input": src, "implementation_value": shown})
+    return out
+
+
 def fmt_expected(e):
     return "-" if e is None else "%s:%d:%s:%s" % (e[0], e[1], e[2].encode().hex(), e[3].encode().hex())
 
@@ -235,7 +274,9 @@ def run(chk):
         if got == fmt_expected(exp) and s not in seen:
             failures.append({"kind": "combination the unit does not accept is read as that unit",
                              "identifier": s, "form": tag, "resolved": got})
-    # read-back of displayed forms
+    failures += standard_failures(binary, rows, units)
+    # read-back of displayed forms (complete when the proof no longer checks)
+    complete_readback = (not quick) or (not proved)
     disp_cases = []
     for r_ in reg:
         if not (r_["metric"] or r_["binary"]):
@@ -248,7 +289,7 @@ def run(chk):
             continue
         a = rng.choice(al)
         cand = [x for x in rows if (r_["metric"] if x["metric"] else r_["binary"])]
-        for x in (cand if not quick else rng.sample(cand, min(3, len(cand)))):
+        for x in (cand if complete_readback else rng.sample(cand, min(3, len(cand)))):
             sp = x["long"] if a[2] else (x["shorts"][0] if a[1] else None)
             if sp is None:
                 continue
@@ -275,7 +316,7 @@ def run(chk):
             readback_ok += 1
 
     for f in failures[:3]:
-        f["replay"] = "printf 'R %s\\n' | harness/target/debug/nbverif prefix" % f.get("identifier", f.get("displayed_unit", "")).encode().hex()
+        f.setdefault("replay", "printf 'R %s\\n' | harness/target/debug/nbverif prefix" % f.get("identifier", f.get("displayed_unit", "")).encode().hex())
         chk.violation(f)
     if not failures and (bad or not proved):
         n = min(bad) if bad else None
